@@ -91,7 +91,10 @@ def construct (src : Source) (headerOk : Bool) (pre : List Handle) : Except (Lis
     let hs := pre ++ [Handle.fresh .stream]                 -- builtins.open(f, 'rb')
     if headerOk then
       .ok ⟨0, false, false, false, ⟨true, some i⟩, some i, hs⟩
-    else .error (modifyAt Handle.close i hs)                -- except: f.close(); raise
+    else
+      -- `except: f.close(); raise`, then the half-built Wave_read is released and its `__del__` →
+      -- `close()` finds `_i_opened_the_file` still set: a second `file.close()`, on the closed file
+      .error (modifyAt Handle.close i (modifyAt Handle.close i hs))
   | .fileObj | .memory =>
     if headerOk then .ok ⟨0, false, false, false, ⟨true, none⟩, none, pre⟩ else .error pre
   | .refusedName => .error pre                              -- AttributeError, nothing was opened
